@@ -148,6 +148,7 @@ type RefPeer struct {
 	// system answered our handshake with its own (never reset)
 	RepliesToOurHandshake int
 	SysExt                *refwire.ExtHandshake
+	SysExtAll             []refwire.ExtHandshake // every extended handshake the system ever sent to this party (all connections)
 	SysExtIDs             map[string]int64
 	SysHave               map[int]bool
 	SysBitfield           []byte
@@ -858,6 +859,7 @@ func (p *RefPeer) onExtended(m refwire.Extended) {
 		}
 		p.SysExt = &h
 		p.SysExtIDs = h.M
+		p.SysExtAll = append(p.SysExtAll, h)
 		return
 	}
 	// ids are the ones we announced: ut_pex 1, ut_metadata 3, lt_donthave 7
